@@ -189,6 +189,8 @@ func runIODiscipline(p *Program, r *Report) {
 	r.Rule("R13b", "IO-ERR-CHAIN: the error of every fallible call in the (de)serialization code is examined on every path and, when non-nil, returned as a non-nil error (only io.EOF at a record boundary may become success)")
 	r.Rule("R13c", "COUNT-ACC: the count of every stream operation is added to the running total that the function returns, before the count variable is reassigned")
 	r.Rule("R13d", "RESTORE-GATE: a restore function returns success only after a consistency check of the restored state that can still fail")
+	r.Rule("R13h", "EOF-IS-TRUNCATION: the stream formats announce how many records follow, so no read of the restore code turns io.EOF into success")
+	r.Rule("R13i", "FAILING-RETURNS-REPORT-TOTAL: a failing return of a stream function hands out the running total (what was consumed or produced before the failure), not the count of the last operation")
 
 	entries := ioEntries(p)
 	r.Floor("R13b", "exported stream entry points", len(entries), 4)
@@ -225,6 +227,7 @@ func runIODiscipline(p *Program, r *Report) {
 
 	// R13b over the serialization closure.
 	nChain := 0
+	nSentinel := 0
 	for _, fn := range sortedFuncs(p, reach) {
 		for _, sc := range callsIn(p, fn) {
 			cc := sc.call.Common()
@@ -252,13 +255,20 @@ func runIODiscipline(p *Program, r *Report) {
 			default:
 				d := v.Detail
 				if v.SentinelUsed {
-					d += "; io.EOF at the record boundary is turned into success (gated by R13d)"
+					d += "; io.EOF at the record boundary is turned into success (see R13h)"
+					nSentinel++
+					// R13h: both stream formats announce how many records follow (leaf count -> number of roots,
+					// niece flags, element counts), so the end of the stream is never a legitimate end of data
+					r.Violate("R13h", key+"/eof-as-success", posOf(p, sc.call), "io.EOF from this read is turned into success, but the stream announces how many records follow (leaf count, niece flags, element counts): the end of the stream at a record boundary is a truncated stream, which is then accepted - with whatever the missing records described left empty", "in "+p.FuncName(fn))
 				}
 				r.Discharge("R13b", key, posOf(p, sc.call), d, true)
 			}
 		}
 	}
 	r.Floor("R13b", "fallible calls in the serialization closure", nChain, 36)
+	if nSentinel == 0 {
+		r.Discharge("R13h", "serialization-closure/eof-as-success", "-", fmt.Sprintf("none of the %d fallible calls of the (de)serialization code turns io.EOF into success", nChain), true)
+	}
 	// deferred (or spawned) fallible calls: their error result is discarded by construction
 	for _, fn := range sortedFuncs(p, reach) {
 		nd := 0
@@ -534,6 +544,7 @@ func (ca *countAcc) site(list []ast.Stmt, i int, st *ast.AssignStmt, call *ast.C
 
 func runCountAcc(p *Program, r *Report, reach map[*ssa.Function]bool) {
 	total := 0
+	nErrFuncs := 0
 	for _, fn := range sortedFuncs(p, reach) {
 		if fn.Parent() != nil {
 			continue // closures are visited with their parent
@@ -583,6 +594,42 @@ func runCountAcc(p *Program, r *Report, reach map[*ssa.Function]bool) {
 				}
 				return true
 			})
+			// R13i: a failing return reports the running total too (what was consumed / produced before the failure),
+			// not the count of the last operation
+			var badErr token.Pos
+			nErr := 0
+			ast.Inspect(decl.Body, func(n ast.Node) bool {
+				if _, isLit := n.(*ast.FuncLit); isLit {
+					return false
+				}
+				ret, ok := n.(*ast.ReturnStmt)
+				if !ok || len(ret.Results) < 2 {
+					return true
+				}
+				last := ret.Results[len(ret.Results)-1]
+				if id, ok := last.(*ast.Ident); ok && id.Name == "nil" {
+					return true
+				}
+				nErr++
+				if o := ca.obj(ret.Results[0]); o == ca.total {
+					return true
+				}
+				if lit, isLit := ret.Results[0].(*ast.BasicLit); isLit && lit.Value == "0" && (ca.firstOp == token.NoPos || ret.Pos() < ca.firstOp) {
+					return true
+				}
+				if badErr == token.NoPos {
+					badErr = ret.Pos()
+				}
+				return true
+			})
+			if nErr > 0 {
+				nErrFuncs++
+				if badErr == token.NoPos {
+					r.Discharge("R13i", ca.fname+"/error-returns-total", p.Pos(decl.Pos()), fmt.Sprintf("all %d failing returns hand out the running total %s", nErr, ca.total.Name()), true)
+				} else {
+					r.Violate("R13i", ca.fname+"/error-returns-total", p.Pos(badErr), "a failing return hands out something else than the running total "+ca.total.Name()+" (for instance the count of the last operation): the reported byte count is not what was consumed or produced", "in "+ca.fname)
+				}
+			}
 			// the final return must be the total itself
 			if okAll {
 				r.Discharge("R13c", ca.fname+"/returns-total", p.Pos(decl.Pos()), "every success return hands out a count variable; the final one is the running total "+ca.total.Name(), true)
@@ -593,6 +640,7 @@ func runCountAcc(p *Program, r *Report, reach map[*ssa.Function]bool) {
 	}
 	r.Stats["io.count_sites"] = total
 	r.Floor("R13c", "stream operations whose count is tracked", total, 32)
+	r.Floor("R13i", "stream functions with failing returns", nErrFuncs, 4)
 }
 
 // ---------------------------------------------------------------------------
